@@ -274,6 +274,8 @@ NEAR_VALID_RESP = [
     b"HTTP/1.1 200 OK\r\nContent-Type: text/event-stream\r\n\r\nretry: -1\nretry: +5\nretry:  7 \nretry: 1_0\nretry: \xd9\xa3\n\ndata: a\n\n",
     b"HTTP/1.1 200 OK\r\nContent-Type: text/event-stream\r\n\r\nid: a\x00b\n:\n: c\n=\ndata\ndata: a\n\n",
     b"HTTP/1.1 200 OK\r\nContent-Type: application/json\r\nContent-Length: 100000\r\n\r\n" + b"[" * 100000,
+    # interim responses before the final one (valid; the client must simply go on)
+    b"HTTP/1.1 100 Continue\r\n\r\nHTTP/1.1 200 OK\r\nContent-Length: 2\r\n\r\nok", b"HTTP/1.1 100 Continue\r\nX: y\r\n\r\nHTTP/1.1 100 Continue\r\n\r\nHTTP/1.1 204 No Content\r\n\r\n",
 ]
 
 
